@@ -423,6 +423,7 @@ func checkMain(args []string) int {
 		total.CrossChecked += st.CrossChecked
 		total.CrossDisagree += st.CrossDisagree
 		total.CrossUndecided += st.CrossUndecided
+		total.SolverRestarts += st.SolverRestarts
 		total.CrossSkipped += st.CrossSkipped
 		if st.MaxQuerySec > total.MaxQuerySec {
 			total.MaxQuerySec = st.MaxQuerySec
@@ -612,6 +613,7 @@ func checkMain(args []string) int {
 			"cross_checked_queries":         total.CrossChecked,
 			"cross_disagreements":           total.CrossDisagree,
 			"cross_undecided":               total.CrossUndecided,
+			"solver_restarts":               total.SolverRestarts,
 			"cross_not_sampled":             total.CrossSkipped,
 			"ssa_instructions_executed":     total.Steps,
 			"max_assert_term_nodes":         total.MaxTermSize,
